@@ -130,6 +130,8 @@ impl RunEnvironment {
     /// Run with preset memory
     pub fn run(&mut self) {
         loop {
+            #[cfg(lace_verif)]
+            crate::verif::tick();
             if let Some(debugger) = &mut self.debugger {
                 Output::Debugger(Condition::Always, Default::default()).start_new_line();
 
